@@ -5,9 +5,8 @@ CONSTANTS
   Home <- MCHome
   Addr = {"a", "b"}
   Attr = {"e1", "d1"}
-  AllowReorder = FALSE
-  MaxOps = 4
+  AllowReorder = TRUE
+  MaxOps = 3
   Defect_StaleClientIndexOnSync = FALSE
-INVARIANTS OwnerIndexExact
 PROPERTIES Converges
 CHECK_DEADLOCK FALSE
